@@ -78,7 +78,7 @@ def main():
     cases = list(g.corpus_cases())
     for f in sorted(glob.glob(os.path.join(vplib.VERIF, "corpus", "C01", "*.json"))):
         cases.append(json.load(open(f)))
-    n = 1 if quick else 25
+    n = 1 if quick else 6
     for _ in range(1100 * n):
         cases.append(g.gen_case(rng, "steps"))
     for _ in range(250 * n):
@@ -184,8 +184,31 @@ def main():
 
 
 MANIFEST = {
-    "claimed": False,
-    "text": "",
-    "note": "",
+    "claimed": True,
+    "text": "Theorems (Coq, closed under the global context; for every threshold configuration -- None/inf, zero, negative, asymmetric, "
+            "i64 extremes -- every algorithm configuration, every starting state and every list of controller operations, by induction "
+            "over the list; an update operation carries an arbitrary combined estimate, direct steer_offset/steer_frequency calls carry "
+            "arbitrary f64 arguments): every step_clock made while in_startup is set lies inside the startup threshold (C01_startup_steps), "
+            "every later one inside the single-step threshold (C01_single_steps), the mathematical sum of |d| of the later steps is <= the "
+            "accumulated threshold a for 0 <= a < i64::MAX (C01_accumulated; unconditional for the saturating abs of the repaired tree "
+            "= C01_accumulated_saturating, and for the wrapping abs whenever the single-step threshold bounds backward steps = "
+            "C01_accumulated_finite_backward; C01_accumulated_refuted is the i64::MIN witness on the unrepaired arithmetic), "
+            "accumulated_steps equals that sum clipped at i64::MAX (C01_accumulated_is_sum), a request above step_threshold exits "
+            "without any clock call exactly when it violates a threshold and otherwise makes exactly one step (C01_exit_instead_of_step), "
+            "no operation that ends in the exit or a panic has stepped (C01_no_step_when_stopping), slews never step, nothing happens after "
+            "the exit (C01_nothing_after_exit), in_startup is cleared exactly by the first completed consensus update (C01_startup_flag), "
+            "as_seconds_nanos hands the kernel the step rounded down to 1 ns (C01_kernel_step). The model is run against the real "
+            "KalmanClockController (recording mock clock) on ~2000 histories per quick run, comparing every clock call, accumulated_steps, "
+            "in_startup, freq_offset, desired_freq, the exit, and from_seconds bit for bit.",
+    "note": "Holds on the tree with branch fix-c32 (saturating NtpDuration abs/neg); on the unrepaired tree the check reports the i64::MIN "
+            "history (step of -2^31 s with backward threshold inf makes accumulated_steps negative; or backward threshold i64::MIN). "
+            "The model selects wrapping/saturating abs and neg from the sources (Gen/ConstController.v ABS_WRAP_SITES/NEG_WRAP_SITES) and all "
+            "theorems are proved for both. Trusted: Coq kernel+vm_compute; hand-written model coq/Model/Controller.v incl. from_seconds on "
+            "primitive floats (only its i64 range is used by the theorems); the combined estimate of update_clock is an oracle input tapped "
+            "from the controller's own select/combine calls (selection/combination are C03/C06); process::exit is panic! under cfg(test) "
+            "(2 sites, census); site census of step_clock/set_frequency/check_offset_steer/state writes in kalman/mod.rs (Proofs census lemma); "
+            "the clock-steering syscall wrapper; `ntp-ctl force-sync` steps the clock on operator request outside the controller. "
+            "Thresholds >= 2^31 s saturate the duration type and are treated as unbounded (a < i64::MAX). Print Assumptions: closed under the "
+            "global context apart from the primitive float/int63 types and operations the model's definitions mention.",
     "design_ref": "DESIGN.md 3 C01",
 }
